@@ -152,21 +152,22 @@ Proof. induction st as [|l st [IH1 IH2]]; [split; reflexivity|]. cbn [cookies an
   unfold own_hdrs. destruct (lkind l); cbn; try (split; [reflexivity|exact IH2]);
   destruct (sticky l); cbn; split; try reflexivity; try exact IH2. Qed.
 
-Theorem transparent st hs s ws :
+Theorem transparent st cn hs s ws :
+  flush_ok cn = true ->
   Forall passive st -> (forall kv, In kv hs -> fst kv < 1000) -> (forall c, s = Some c -> c <> 0) ->
   let h := nf_handler hs s ws in
-  let v := client_view (fst (serve st full h)) in
-  let v0 := client_view (run_handler full h) in
-  snd (serve st full h) = 1 /\
+  let v := client_view (fst (serve st cn h)) in
+  let v0 := client_view (run_handler cn h) in
+  snd (serve st cn h) = 1 /\
   v_hijacked v = false /\ v_hijacked v0 = false /\
   v_status v = v_status v0 /\ v_body v = v_body v0 /\
   handler_hdrs (v_hdrs v) = v_hdrs v0 /\
   has_cookie (v_hdrs v) = zbool (any_sticky st) /\
   (has_buffer st = false -> v_flushes v = v_flushes v0) /\
   (has_buffer st = true -> v_flushes v <= v_flushes v0).
-Proof. intros Hp Hk Hs. cbn zeta.
-  destruct (serve_passive st Hp full hs s ws) as (s' & ws' & E & Hst & Hb & Hf). rewrite E. cbn [fst snd].
-  rewrite run_handler_nf. cbn [full flush_ok]. rewrite !client_view_nf. cbn [v_hijacked v_status v_hdrs v_body v_flushes].
+Proof. intros Hcn Hp Hk Hs. cbn zeta.
+  destruct (serve_passive st Hp cn hs s ws) as (s' & ws' & E & Hst & Hb & Hf). rewrite E. cbn [fst snd].
+  rewrite run_handler_nf. rewrite Hcn in *. rewrite !client_view_nf. cbn [v_hijacked v_status v_hdrs v_body v_flushes].
   destruct (cookies_spec st) as (C1 & C2).
   assert (Hh : handler_hdrs hs = hs).
   { unfold handler_hdrs. clear - Hk. induction hs as [|kv hs IH]; cbn; [reflexivity|].
@@ -195,7 +196,7 @@ Proof. intros Hp Hk Hs. cbn zeta.
         + rewrite buffered_nf, own_nf, <- app_assoc. eexists _, _. split; [reflexivity|].
           unfold squash. destruct (existsb is_write ws1); unfold nflush in *; cbn; lia.
         + rewrite own_nf, <- app_assoc. eexists _, _. split; [reflexivity|exact Hle]. }
-    destruct (G st Hp full) as (s1 & ws1 & E1 & Hle). rewrite E in E1. injection E1 as E1.
+    destruct (G st Hp cn) as (s1 & ws1 & E1 & Hle). rewrite E in E1. injection E1 as E1.
     assert (nflush ws' = nflush ws1).
     { unfold nf in E1. apply app_inv_head in E1. 
       assert (L : forall a b, st_evs a ++ map ev_of ws' = st_evs b ++ map ev_of ws1 -> map ev_of ws' = map ev_of ws1).
@@ -235,6 +236,12 @@ Proof. intros Hp.
       + exists (own_hdrs l ++ hs). unfold sethdrs. rewrite map_app, <- app_assoc. reflexivity. }
   destruct (G st Hp full eq_refl) as (hs & E). rewrite E. cbn [fst snd]. split; [reflexivity|].
   unfold client_view. apply client_sethdrs_hijack. Qed.
+
+(* on a connection that cannot be hijacked (HTTP/2) the handler's hijack attempt fails through every stack, and the
+   handler's fallback response is served exactly as if it had not tried *)
+Theorem hijack_unavailable st : forall c h, hijack_ok c = false -> serve st c (HHijack :: h) = serve st c h.
+Proof. induction st as [|l st IH]; intros c h Hc; cbn [serve run_handler]; [rewrite Hc; reflexivity|].
+  rewrite IH; [reflexivity|]. unfold caps_through. destruct (is_buffer (lkind l)); exact Hc. Qed.
 
 (* ---------- decisiveness ---------- *)
 Definition documented_status (k : kind) : Z :=
